@@ -88,6 +88,23 @@ def monthlen(year: int, month: int) -> int:
     return mdays[month] + (month == 2 and isleap(year))
 
 
+def days_from_civil(year: int, month: int, day: int) -> int:
+    """Return the days since 0000-03-01 in the proleptic Gregorian calendar."""
+    if month <= 2:
+        year -= 1
+        month += 12
+
+    return (
+        365 * year
+        + year // 4
+        - year // 100
+        + year // 400
+        + (153 * (month - 3) + 2) // 5
+        + day
+        - 1
+    )
+
+
 def validate_date(year: int, month: int, day: int) -> None:
     """Validate the given year, month day is a valid date."""
     if not 1 <= month <= 12:
